@@ -89,23 +89,10 @@ static bool near_known_bosonic_singularity(const THDM& m) {
    return std::fabs(mHp - MW) < eps * MW || std::fabs(S[0] - 2 * MW) < eps * 2 * MW;
 }
 
-// oracle 2: gauge basis, fixed quartic couplings, heavy scale M raised: K(M) = |a| M^2/(1 + ln^2(M/MZ)) stays bounded
-static void decoupling(vh::Rng& r, double T1, double TF, double TB) {
-   thdm::Gauge_basis g; g.yukawa_type = static_cast<thdm::Yukawa_type>(1 + r.range(6));
-   for (int i = 0; i < 7; ++i) g.lambda(i) = r.U(-2, 2);
-   g.lambda(0) = r.U(0.02, 2); g.lambda(1) = r.U(0.02, 2);
-   g.tan_beta = r.LU(0.3, 50);
-   g.zeta_u = r.U(-2, 2); g.zeta_d = r.U(-2, 2); g.zeta_l = r.U(-2, 2);
-   if (g.yukawa_type == thdm::Yukawa_type::general) {   // Pi_f of the size of an aligned model
-      const double cb = 1 / std::sqrt(1 + g.tan_beta * g.tan_beta); SM s0; const double v = s0.get_v();
-      g.Pi_u = cb * std::sqrt(2.0) / v * (g.zeta_u + g.tan_beta) * Eigen::Matrix<double, 3, 3>(s0.get_mu().asDiagonal());
-      g.Pi_d = cb * std::sqrt(2.0) / v * (g.zeta_d + g.tan_beta) * Eigen::Matrix<double, 3, 3>(s0.get_md().asDiagonal());
-      g.Pi_l = cb * std::sqrt(2.0) / v * (g.zeta_l + g.tan_beta) * Eigen::Matrix<double, 3, 3>(s0.get_ml().asDiagonal());
-   }
-   thdm::Config cfg; cfg.running_couplings = false;
-   const double tb = g.tan_beta, sbcb = tb / (1 + tb * tb), MZ = 91.1876;
-   J c = gen::json(g);
-   const std::string ty = "type" + std::to_string(static_cast<int>(g.yukawa_type));
+// family evaluation shared by the generic (oracle 2) and the exactly aligned (oracle 3) families: make(M) returns the model at heavy scale M
+template <class Make>
+static void judge_family(Make make, const std::string& prefix, const std::string& ty, const J& c, const double lim[3], const double* klim = nullptr) {
+   const double MZ = 91.1876;
    const int NP = 5;
    double K[3][2][NP]; double aM2[3][2][NP]; bool touches_singular = false;
    // the property's sqrt(10) grid, for the literal-ratio statistic
@@ -113,48 +100,105 @@ static void decoupling(vh::Rng& r, double T1, double TF, double TB) {
    try {
       for (int band = 0; band < 2; ++band) for (int j = 0; j < NP; ++j) {
          const double M = (band == 0 ? 1000.0 : 10000.0) * std::pow(10.0, 0.5 * j / (NP - 1));
-         g.m122 = M * M * sbcb;
-         THDM m0(g, SM(), cfg); SM sm; sm.set_mh(m0.get_Mhh(0));   // light-Higgs sector = the SM's
-         THDM m(g, sm, cfg);
+         THDM m = make(M);
          const double a[3] = {calculate_amu_1loop(m), calculate_amu_2loop_fermionic(m), calculate_amu_2loop_bosonic(m)};
          touches_singular = touches_singular || near_known_bosonic_singularity(m);
          const double L = std::log(M / MZ);
          for (int q = 0; q < 3; ++q) { aM2[q][band][j] = a[q] * M * M; K[q][band][j] = std::fabs(a[q]) * M * M / (1 + L * L); }
       }
       for (int j = 0; j < 4; ++j) {
-         const double M = 1000.0 * std::pow(10.0, 0.5 * j); g.m122 = M * M * sbcb;
-         THDM m0(g, SM(), cfg); SM sm; sm.set_mh(m0.get_Mhh(0)); THDM m(g, sm, cfg);
+         const double M = 1000.0 * std::pow(10.0, 0.5 * j);
+         THDM m = make(M);
          grid[0][j] = calculate_amu_1loop(m); grid[1][j] = calculate_amu_2loop_fermionic(m); grid[2][j] = calculate_amu_2loop_bosonic(m);
       }
-   } catch (const Error&) { ++out->inconclusive; out->count("decoupling-family-rejected"); return; }
+   } catch (const Error&) { ++out->inconclusive; out->count(prefix + "-family-rejected"); return; }
    ++out->conclusive;
-   const char* nm[3] = {"1L", "2LF", "2LB"}; const double lim[3] = {T1, TF, TB};
+   const char* nm[3] = {"1L", "2LF", "2LB"};
    for (int q = 0; q < 3; ++q) {
       double lo = 0, hi = 0; bool fin = true;
       for (int j = 0; j < NP; ++j) { lo = std::max(lo, K[q][0][j]); hi = std::max(hi, K[q][1][j]); fin = fin && std::isfinite(K[q][0][j]) && std::isfinite(K[q][1][j]); }
       J w = c; w.arr("aM2_low_band", aM2[q][0], aM2[q][0] + NP).arr("aM2_high_band", aM2[q][1], aM2[q][1] + NP);
-      if (!fin) { out->fail(std::string("C10:decoupling:") + nm[q] + ":nonfinite", "non-finite contribution along the decoupling family", w); continue; }
-      if (lo == 0) { out->count(std::string("decoupling:") + nm[q] + ":vanishes-in-low-band"); continue; }
-      if (q == 2 && touches_singular) { out->count("decoupling:2LB: family touches a known singular configuration of the bosonic part (C11 findings): not judged"); continue; }
-      judge(std::string("decoupling:") + nm[q] + ":band-maxima-ratio", ty, hi / lo, lim[q], w, std::string(nm[q]) + ": max_high K / max_low K with K = |a| M^2/(1+ln^2(M/MZ))");
+      if (!fin) { out->fail("C10:" + prefix + ":" + nm[q] + ":nonfinite", "non-finite contribution along the decoupling family", w); continue; }
+      if (lo == 0) { out->count(prefix + ":" + nm[q] + ":vanishes-in-low-band"); continue; }
+      if (q == 2 && touches_singular) { out->count(prefix + ":2LB: family touches a known singular configuration of the bosonic part (C11 findings): not judged"); continue; }
+      judge(prefix + ":" + nm[q] + ":band-maxima-ratio", ty, hi / lo, lim[q], w, std::string(nm[q]) + ": max_high K / max_low K with K = |a| M^2/(1+ln^2(M/MZ))");
+      if (klim && klim[q] > 0) judge(prefix + ":" + nm[q] + ":K-high-band", ty, hi, klim[q], w, std::string(nm[q]) + ": max over M in [10, 31.6] TeV of |a| M^2/(1+ln^2(M/MZ)) [GeV^2]");
       for (int j = 0; j < 3; ++j) {
          const double ratio = std::fabs(grid[q][j + 1]) / std::fabs(grid[q][j]);
-         out->count(std::string("literal-step-ratio:") + nm[q] + (ratio <= 0.45 ? ":<=0.45" : ":>0.45(reported)"));
+         out->count("literal-step-ratio:" + prefix + ":" + nm[q] + (ratio <= 0.45 ? ":<=0.45" : ":>0.45(reported)"));
       }
    }
    out->sample(c, 1);
+}
+
+static void general_Pi(thdm::Gauge_basis& g) {   // Pi_f of the size of an aligned model
+   const double cb = 1 / std::sqrt(1 + g.tan_beta * g.tan_beta); SM s0; const double v = s0.get_v();
+   g.Pi_u = cb * std::sqrt(2.0) / v * (g.zeta_u + g.tan_beta) * Eigen::Matrix<double, 3, 3>(s0.get_mu().asDiagonal());
+   g.Pi_d = cb * std::sqrt(2.0) / v * (g.zeta_d + g.tan_beta) * Eigen::Matrix<double, 3, 3>(s0.get_md().asDiagonal());
+   g.Pi_l = cb * std::sqrt(2.0) / v * (g.zeta_l + g.tan_beta) * Eigen::Matrix<double, 3, 3>(s0.get_ml().asDiagonal());
+}
+
+// oracle 2: gauge basis, fixed quartic couplings, heavy scale M raised: K(M) = |a| M^2/(1 + ln^2(M/MZ)) stays bounded
+static void decoupling(vh::Rng& r, double T1, double TF, double TB) {
+   thdm::Gauge_basis g; g.yukawa_type = static_cast<thdm::Yukawa_type>(1 + r.range(6));
+   for (int i = 0; i < 7; ++i) g.lambda(i) = r.U(-2, 2);
+   g.lambda(0) = r.U(0.02, 2); g.lambda(1) = r.U(0.02, 2);
+   g.tan_beta = r.LU(0.3, 50);
+   g.zeta_u = r.U(-2, 2); g.zeta_d = r.U(-2, 2); g.zeta_l = r.U(-2, 2);
+   if (g.yukawa_type == thdm::Yukawa_type::general) general_Pi(g);
+   thdm::Config cfg; cfg.running_couplings = false;
+   const double tb = g.tan_beta, sbcb = tb / (1 + tb * tb);
+   const double lim[3] = {T1, TF, TB};
+   judge_family([&](double M) { g.m122 = M * M * sbcb; THDM m0(g, SM(), cfg); SM sm; sm.set_mh(m0.get_Mhh(0));   // light-Higgs sector = the SM's
+                                return THDM(g, sm, cfg); },
+                "decoupling", "type" + std::to_string(static_cast<int>(g.yukawa_type)), gen::json(g), lim);
+}
+
+// oracle 3: the property's own setting - cos(beta-alpha) = 0 exactly AND the heavy masses raised at fixed quartic couplings.  Two constructions:
+//   gauge basis with lambda_1 = lambda_2 = lambda_345 and lambda_6 = lambda_7 = 0 (alignment without decoupling for every tan(beta)),
+//   mass basis with sin(beta-alpha) = +-1 and mX^2 = M^2 + c_X v^2 (c_X small enough for |lambda_i| <= 2), lambda_6,7 free.
+static void aligned_decoupling(vh::Rng& r, const double lim[3], const double klg[3], const double klm[3]) {
+   thdm::Config cfg; cfg.running_couplings = false;
+   const thdm::Yukawa_type yt = static_cast<thdm::Yukawa_type>(1 + r.range(6));
+   const double tb = r.LU(0.3, 50), sbcb = tb / (1 + tb * tb);
+   const std::string ty = "type" + std::to_string(static_cast<int>(yt));
+   if (r.chance(0.5)) {
+      thdm::Gauge_basis g; g.yukawa_type = yt; g.tan_beta = tb;
+      const double L = r.U(0.02, 2); double l4, l5, l3; int tries = 0;
+      do { l4 = r.U(-2, 2); l5 = r.U(-2, 2); l3 = L - l4 - l5; } while (std::fabs(l3) > 2 && ++tries < 100);
+      if (std::fabs(l3) > 2) { l4 = 0; l5 = 0; l3 = L; }
+      g.lambda << L, L, l3, l4, l5, 0, 0;
+      g.zeta_u = r.U(-2, 2); g.zeta_d = r.U(-2, 2); g.zeta_l = r.U(-2, 2);
+      if (yt == thdm::Yukawa_type::general) general_Pi(g);
+      judge_family([&](double M) { g.m122 = M * M * sbcb; THDM m0(g, SM(), cfg); SM sm; sm.set_mh(m0.get_Mhh(0)); return THDM(g, sm, cfg); },
+                   "aligned-decoupling(gauge)", ty, gen::json(g), lim, klg);
+   } else {
+      thdm::Mass_basis b = gen::rand_mass_basis(r); b.yukawa_type = yt; b.tan_beta = tb;
+      b.sin_beta_minus_alpha = r.sign(); b.mh = r.U(20, 300);
+      const double v2 = 246.22 * 246.22, small = std::min(tb * tb, 1 / (tb * tb));
+      const double cH = r.U(-1, 1) * small, cA = r.U(-1, 1), cP = r.U(-1, 1);
+      b.lambda_6 = r.chance(0.3) ? 0 : r.U(-2, 2) * std::min(1.0, 1 / (tb * tb * tb)); b.lambda_7 = r.chance(0.3) ? 0 : r.U(-2, 2) * std::min(1.0, tb * tb * tb);
+      judge_family([&](double M) { b.m122 = M * M * sbcb; b.mH = std::sqrt(M * M + cH * v2); b.mA = std::sqrt(M * M + cA * v2); b.mHp = std::sqrt(M * M + cP * v2);
+                                   THDM m0(b, SM(), cfg); SM sm; sm.set_mh(m0.get_Mhh(0)); return THDM(b, sm, cfg); },
+                   "aligned-decoupling(mass)", ty + (b.sin_beta_minus_alpha > 0 ? "|sba=+1" : "|sba=-1"), gen::json(b), lim, klm);
+   }
 }
 
 int main(int argc, char** argv) {
    vh::Args a(argc, argv);
    vh::Out o(a); out = &o;
    const double T1 = a.getd("t1", 10.0), TF = a.getd("tf", 70.0), TB = a.getd("tb", 2000.0);
+   const double AL[3] = {a.getd("a1", 3.0), a.getd("af", 6.0), TB};   // exactly aligned families: observed maxima 0.78 / 2.0 over 5e5 families (saturating)
+   // bosonic part of exactly aligned families: the band ratio is blind to a remainder that does not fall with M (a constant gives ~33, zero crossings in the
+   // low band give up to ~100 on correct code), its size in the high band is not: observed maxima 9.9e-8 (gauge construction) and 1.5e-4 GeV^2 (mass
+   // construction, lambda_7 and tan(beta)-enhanced lepton couplings), the same in every Yukawa type (bounded parameters => bounded K); limits 10x above
+   const double KLG[3] = {0, 0, a.getd("kbg", 1e-6)}, KLM[3] = {0, 0, a.getd("kbm", 2e-3)};
    gen::CerrCapture cap;
    for (long i = a.first(); i < a.last(); ++i) {
       o.cur = i;
       vh::Rng r(a.seed, a.worker, i);
       ++o.evaluations;
-      if (i % 2 == 0) sm_limit(r); else decoupling(r, T1, TF, TB);
+      if (i % 2 == 0) sm_limit(r); else if (i % 4 == 1) decoupling(r, T1, TF, TB); else aligned_decoupling(r, AL, KLG, KLM);
    }
    o.finish();
    return 0;
